@@ -77,6 +77,8 @@ func (p *Core) Exec(w *sim.World, op sim.Op) {
 		p.execXfer(op)
 	case "donate":
 		p.execDonate(op)
+	case "rladm":
+		p.execRateAdmin(op)
 	case "lhv":
 		p.execLocalVerify(op)
 	case "lhop":
